@@ -136,7 +136,15 @@ class SequenceIterator(types.Recoverable, Iterator[_T]):
   def __next__(self) -> _T:
     """Iterates the data source given a shard index."""
     while True:
-      result = next(self._it)
+      try:
+        result = next(self._it)
+      except StopIteration:
+        raise
+      except Exception:
+        # A failing read consumes its position as well: when the caller skips
+        # the error and continues, the recorded state points behind it.
+        self._index += 1
+        raise
       # A skipped read advances the position as well, so that the recorded
       # state points behind it.
       self._index += 1
